@@ -2,12 +2,12 @@
    Property theorems only. Model: models/Registry.v (registry/registry.go + registry/transaction.go); the schema is an
    arbitrary predicate `valid`. `allowed acc rules req p`: p is the filled storage path of a rule of the view that
    matches the request req and grants access acc.
-   PARTIAL overall: the model (and so every theorem) covers requests whose matching rules leave no unfilled
-   {placeholder} in the unmatched suffix / storage path, and Sets whose non-empty unmatched suffixes are not prefixes
-   of one another (otherwise set_writes / unset_paths / view_get answer RUnsupported). Read-after-write is proved at
-   the storage level for every accepted Set (nested storage paths included) and through the view for a request matched
-   by one literal read-write rule; the general view-level statement (several rules, merge of namespaces) and the
-   bare-databag partial-write counterexample are not proved - the differential run and the read-back monitor cover them. *)
+   Scope of the model: View.Set (incl. {placeholders} left in the unmatched suffix, filled from the keys of the value, and
+   the order-dependent case as a relation), View.Get (incl. placeholders), View.Unset for literal storage paths,
+   JSONDataBag, Transaction. Still outside (RUnsupported): View.Unset through an unfilled placeholder, and a Set whose
+   suffix placeholder is already filled in the storage path (same placeholder name twice in one request pattern: every
+   candidate goes to the same storage path and map order decides). Not proved: what Get of the SAME prefix request
+   returns when several rules match (merge of namespaces); see C30_read_after_write_same_request_partial for what is proved. *)
 From Coq Require Import List NArith ZArith Bool.
 Import ListNotations.
 Require Import V.lib.JsonTree V.models.Registry V.proofs.RegistryProofs.
@@ -21,12 +21,28 @@ Theorem C30_write_paths_allowed_partial : forall rules req,
 Proof. intros rules req. split; [exact (write_paths_allowed rules req)|exact (unset_paths_allowed rules req)]. Qed.
 Print Assumptions C30_write_paths_allowed_partial.
 
+(* the same for EVERY Set the model covers - placeholders of the unmatched suffix filled from the value's keys, and the
+   order-dependent Sets (whatever the implementation's choice, the writes are these): every written path is an instance
+   of the filled storage path of a matching writeable rule *)
+Theorem C30_set_paths_allowed : forall rules req v ws p x,
+  (set_writes_g rules req v = (ROk, ws) \/ (exists r, set_class rules req v = SDet r ws) \/
+   (exists m, set_class rules req v = SEither m ws)) ->
+  In (p, x) ws -> allowed_g writeable rules req p.
+Proof.
+  intros rules req v ws p x [H|H] I; [eapply write_paths_allowed_g; eauto|eapply set_class_allowed; eauto].
+Qed.
+Print Assumptions C30_set_paths_allowed.
+
 (* View.Get depends on the databag only through storage paths of matching READABLE rules (non-interference form:
-   two databags that agree on those paths give the same answer) - write-only data never leaks *)
-Theorem C30_read_paths_allowed_partial : forall rules req (g1 g2 : path -> bres),
-  (forall p, allowed readable rules req p -> g1 p = g2 p) -> view_get rules g1 req = view_get rules g2 req.
-Proof. exact read_paths_allowed. Qed.
-Print Assumptions C30_read_paths_allowed_partial.
+   two databags that agree on those paths give the same answer) - write-only data never leaks. Both forms of View.Get
+   (literal storage paths; storage paths with unfilled placeholders) are covered, i.e. every Get *)
+Theorem C30_read_paths_allowed : forall rules req,
+  (forall g1 g2 : path -> bres,
+     (forall p, allowed readable rules req p -> g1 p = g2 p) -> view_get rules g1 req = view_get rules g2 req) /\
+  (forall g1 g2 : list part -> bres,
+     (forall sp, allowed_parts rules req sp -> g1 sp = g2 sp) -> view_get_ph rules g1 req = view_get_ph rules g2 req).
+Proof. intros rules req. split; [exact (read_paths_allowed rules req)|exact (read_paths_allowed_ph rules req)]. Qed.
+Print Assumptions C30_read_paths_allowed.
 
 (* at the transactional entry point a rejected request (no matching rule, bad value, unused branch, failing delta,
    schema violation at commit) leaves the committed databag unchanged; an accepted one leaves a valid databag; and in
@@ -43,19 +59,20 @@ Proof.
 Qed.
 Print Assumptions C30_rejected_leaves_committed_unchanged_partial.
 
-(* two transactions whose writes go to pairwise diverging storage paths: after both committed (either order: swap the
-   names) every written path reads back as written *)
+(* two transactions with any mix of Set and Unset deltas: after both committed (either order: swap the names) every value
+   written by a Set whose path diverges from all later deltas of its own transaction and (for the first one) from all
+   deltas of the second reads back as written *)
 Theorem C30_commit_order_no_lost_update : forall valid t1 t2 b b1 b2,
-  Forall is_set (tx_deltas t1) -> Forall is_set (tx_deltas t2) ->
+  Forall has_path (tx_deltas t1) -> Forall has_path (tx_deltas t2) ->
   tx_commit valid t1 b = Some b1 -> tx_commit valid t2 b1 = Some b2 ->
-  (forall ds1 d ds2, tx_deltas t1 = ds1 ++ d :: ds2 ->
+  (forall ds1 d ds2, tx_deltas t1 = ds1 ++ d :: ds2 -> snd d <> Null ->
      (forall d', In d' ds2 -> diverge (fst d) (fst d') = true) ->
      (forall d', In d' (tx_deltas t2) -> diverge (fst d) (fst d') = true) ->
      bag_get (fst d) b2 = BOk (strip (snd d))) /\
-  (forall ds1 d ds2, tx_deltas t2 = ds1 ++ d :: ds2 ->
+  (forall ds1 d ds2, tx_deltas t2 = ds1 ++ d :: ds2 -> snd d <> Null ->
      (forall d', In d' ds2 -> diverge (fst d) (fst d') = true) ->
      bag_get (fst d) b2 = BOk (strip (snd d))).
-Proof. exact commit_order_no_lost_update. Qed.
+Proof. exact commit_order_no_lost_update_g. Qed.
 Print Assumptions C30_commit_order_no_lost_update.
 
 (* the sort-order lemma: the writes of one accepted Set are performed in storage-path order, so a write never comes
@@ -84,16 +101,62 @@ Print Assumptions C30_read_after_write_storage.
    read-write rule (no other rule matches it, not even as a prefix), inside a transaction whose pending deltas apply
    cleanly. Missing: several matching rules (needs: merging the namespaced values of all matches rebuilds v, which
    does not even hold for nested storage paths, where the outer rule also returns the inner rule's data). *)
-Theorem C30_read_after_write_partial : forall rules req v sp p t b,
+Theorem C30_read_after_write_same_request_partial : forall rules req v sp p t b,
   matches writeable rules req = [(sp, [])] -> matches readable rules req = [(sp, [])] ->
   lits sp = Some p -> p <> [] -> v <> Null ->
   apply_deltas (tx_pristine t) (tx_deltas t) = Some b ->
   set_writes rules req v = (ROk, [(p, v)]) /\
   view_get rules (tx_get (add_deltas t [(p, v)])) req = VOk (strip v).
 Proof. exact view_read_after_write. Qed.
+Print Assumptions C30_read_after_write_same_request_partial.
+
+(* read-after-write through the view, rule by rule - PARTIAL w.r.t. the DESIGN statement. Proved: after an accepted Set
+   of v at req (any number of matched rules, nested storage paths included), the request g of any one written rule -
+   g matched by exactly that readable rule, in full, its storage path p not touched by a later write of the same Set -
+   reads back the part of v written through that rule. Together with C30_outer_returns_inner (what the OUTER rule of a
+   nested pair returns: its own value with the inner rule's value set inside) this says precisely what is read back.
+   Missing: Get of the prefix request req itself when several rules match it (the merge of the namespaced values). *)
+Theorem C30_read_after_write_partial : forall rules req v ws ws1 p x ws2 g sp t b,
+  set_writes rules req v = (ROk, ws) -> Forall is_set ws -> ws = ws1 ++ (p, x) :: ws2 ->
+  (forall d', In d' ws2 -> is_prefix p (fst d') = false) ->
+  matches readable rules g = [(sp, [])] -> lits sp = Some p ->
+  apply_deltas (tx_pristine t) (tx_deltas t) = Some b ->
+  view_get rules (tx_get (add_deltas t ws)) g = VOk (strip x).
+Proof. exact view_read_after_write_rule. Qed.
 Print Assumptions C30_read_after_write_partial.
 
+Theorem C30_outer_returns_inner : forall b p q x1 x2, p <> [] -> q <> [] -> x1 <> Null -> x2 <> Null ->
+  exists b', apply_deltas b [(p, x1); (p ++ q, x2)] = Some b' /\
+             bag_get p b' = BOk (tset q (strip x2) (Some (strip x1))) /\
+             bag_get (p ++ q) b' = BOk (strip x2).
+Proof. exact outer_returns_inner. Qed.
+Print Assumptions C30_outer_returns_inner.
+
+(* the full statement "a rejected View.Set leaves the databag unchanged" is FALSE on a bare databag (no transaction):
+   rules a.b -> p, a.c -> q, schema rejecting 99, Set a = {b:1, c:99}: the write of p passes, the write of q fails the
+   schema, the request is rejected and both writes stay behind; at the transactional entry point the same request
+   changes nothing. Confirmed on the real code by the driver (fixed history 5, OBare). *)
+Theorem C30_bare_bag_partial_refuted : exists valid rules b req v b',
+  bare_set valid rules b req v = (RError, b') /\ b' <> b /\ set_via_view valid rules b req v = (b, false).
+Proof.
+  exists drv_valid, bb_rules, [], [97], bb_value, [(112, Atom 1%Z); (113, Atom 99%Z)].
+  split; [exact bare_bag_partial|]. split; [discriminate|exact bare_bag_vs_tx].
+Qed.
+Print Assumptions C30_bare_bag_partial_refuted.
+
 (* ---- non-vacuity *)
+(* a {placeholder} left in the unmatched suffix is filled from the keys of the value *)
+Example ex_placeholder_suffix :
+  set_writes_g [mkRule [Lit 97; Ph 120; Lit 98] [Lit 112; Ph 120] RW] [97]
+               (Obj [(99, Obj [(98, Atom 1%Z)]); (100, Obj [(98, Atom 2%Z)])]) =
+  (ROk, [([112; 99], Atom 1%Z); ([112; 100], Atom 2%Z)]).
+Proof. reflexivity. Qed.
+(* order-dependent suffixes b and b.c: either the writes or BadRequest *)
+Example ex_order_dependent :
+  set_class [mkRule [Lit 97; Lit 98] [Lit 112] RW; mkRule [Lit 97; Lit 98; Lit 99] [Lit 113] RW; mkRule [Lit 97; Lit 100] [Lit 114] RW]
+            [97] (Obj [(98, Obj [(99, Atom 1%Z)]); (100, Atom 2%Z)]) =
+  SEither false [([112], Obj [(99, Atom 1%Z)]); ([113], Atom 1%Z); ([114], Atom 2%Z)].
+Proof. reflexivity. Qed.
 Definition ex_nested : list rule := [mkRule [Lit 97; Lit 98] [Lit 112; Lit 113] RW; mkRule [Lit 97; Lit 99] [Lit 112] RW].
 (* a.b -> p.q (smaller request, inner path), a.c -> p: the outer path p is written first *)
 Example ex_nested_order :
